@@ -50,6 +50,10 @@ class ExecWalker(pathwalk.Walker):
         if g is not None and g.cfg is not None and st.depth < 3 and g.clsq == self.cls and \
                 'virtual' not in g.flags and 'ctor' not in g.flags:
             return g
+        # a file-local helper extracted from a member function (anonymous namespace, same file)
+        if g is not None and g.cfg is not None and st.depth < 3 and not g.cls and g.file == fn.file and \
+                '(anonymous namespace)' in g.qn:
+            return g
         return None
 
     def on_inline(self, fn, n, g, st):
@@ -110,7 +114,11 @@ class ExecWalker(pathwalk.Walker):
                     self.set_owned(st, (st.depth, v['id']), True)
                     st.events.append(('lock', loc))
                 st.events.append(('assign', (st.depth, v['id'])))
-                if init is not None and init.get('cn', '').endswith('::PopFront'):
+                core = init
+                while core is not None and core['k'] in ('CXXStaticCastExpr', 'ImplicitCastExpr', 'ParenExpr',
+                                                          'CStyleCastExpr', 'CXXFunctionalCastExpr') and core.get('ch'):
+                    core = fn.sn(core['ch'][0])  # auto& job = static_cast<Job&>(list.PopFront())
+                if core is not None and core.get('cn', '').endswith('::PopFront'):
                     st.events.append(('pop', (st.depth, v['id']), loc))
                 self.note_next_read(fn, v['init'], st)
             return
